@@ -587,6 +587,19 @@ class KInterp:
             blk = fn.blocks[lab]
             n = len(blk)
             jumped = False
+            if i == 0 and blk and blk[0].op == 'phi':
+                vals = []
+                for ins in blk:
+                    if ins.op != 'phi':
+                        break
+                    for v, l in ins.a:
+                        if l == prev:
+                            vals.append((ins.dst, s.val(st, v, ins.ty)))
+                            break
+                    else:
+                        raise Undecided('phi without matching predecessor')
+                for d, v in vals:
+                    st.env[d] = v
             while i < n:
                 ins = blk[i]
                 i += 1
@@ -688,11 +701,7 @@ class KInterp:
                 return ('br', ins.x[0] if b else ins.x[1])
             raise Undecided('branch on %r' % (b,))
         if op == 'phi':
-            for v, l in ins.a:
-                if l == prev:
-                    st.env[dst] = s.val(st, v, ins.ty)
-                    return
-            raise Undecided('phi')
+            return
         if op == 'bitcast':
             v = s.val(st, ins.a[0], ins.x)
             st.env[dst] = s.bitcast(st, v, ins.x, ins.ty)
